@@ -292,6 +292,47 @@ impl FileGraphs {
     }
 }
 
+impl FileGraphs {
+    /// Larger structured graphs (5..8 files): a chain, a fan, a full DAG and a ring-free ladder, each
+    /// with every single extra import edge (self-imports included) added, and each with one
+    /// companion signature importing every single file.
+    pub fn families(tier: Tier) -> Self {
+        let mut states = vec![];
+        for n in 5..=8usize {
+            let mut bases: Vec<Vec<u32>> = vec![];
+            // chain 0 -> 1 -> ... -> n-1
+            bases.push((0..n).map(|i| if i + 1 < n { 1 << (i + 1) } else { 0 }).collect());
+            // fan: the root imports everything
+            bases.push((0..n).map(|i| if i == 0 { ((1u32 << n) - 1) & !1 } else { 0 }).collect());
+            // full DAG: i imports every j > i
+            bases.push((0..n).map(|i| ((1u32 << n) - 1) & !((1u32 << (i + 1)) - 1)).collect());
+            // ladder: i imports i+1 and i+2
+            bases.push((0..n).map(|i| (if i + 1 < n { 1 << (i + 1) } else { 0 }) | (if i + 2 < n { 1 << (i + 2) } else { 0 })).collect());
+            for base in bases {
+                states.push(Fs { n, impl_edges: base.clone(), sigs: 0, sig_edges: vec![0; n], dup: false });
+                for i in 0..n {
+                    for j in 0..n {
+                        if base[i] >> j & 1 == 1 {
+                            continue;
+                        }
+                        let mut e = base.clone();
+                        e[i] |= 1 << j;
+                        states.push(Fs { n, impl_edges: e, sigs: 0, sig_edges: vec![0; n], dup: false });
+                    }
+                }
+                // one companion signature (on the middle file) importing each single file
+                let k = n / 2;
+                for j in 0..n {
+                    let mut sig_edges = vec![0u32; n];
+                    sig_edges[k] = 1 << j;
+                    states.push(Fs { n, impl_edges: base.clone(), sigs: 1 << k, sig_edges, dup: false });
+                }
+            }
+        }
+        FileGraphs { states, chunk: 16, seeds: if tier == Tier::Thorough { 8 } else { 2 }, scratch: None, label: "c09-families" }
+    }
+}
+
 impl Check for FileGraphs {
     fn property(&self) -> &'static str {
         "C09"
@@ -317,6 +358,9 @@ impl Check for FileGraphs {
         format!("file-system states #{}..#{} (first shown), root f0.zy, hash seeds 0..{}:\n{}", i * self.chunk, (i + 1) * self.chunk, self.seeds, files)
     }
     fn rule(&self) -> String {
+        if self.label == "c09-families" {
+            return format!("structured graphs on 5..8 files: a chain, a fan, a full DAG and a ladder, each alone, with every single extra import edge added (self-imports and back edges included) and with one companion signature importing each single file ({} directory states), loaded from f0.zy under hash seeds 0..{}; same oracle as the exhaustive small graphs (reference reachability / cycle DFS, provider order, reported cycle steps)", self.states.len(), self.seeds);
+        }
         if self.label == "c09-graphs4" {
             format!("every import edge set on 4 implementation files including self-imports (65,536 directory states), each written to a scratch directory and loaded with CompilerSession::graph under hash seeds 0..{}; oracle = reference reachability/cycle DFS: Ok iff no cycle reachable from the root; on Ok sources = reachable files once each, imports = one edge per occurrence, provider_order lists providers first and ends with the root; on Err every reported step is a real edge, steps chain and close; case = 64 states; non-trivial = states with a reachable file other than the root", self.seeds)
         } else {
@@ -374,5 +418,5 @@ impl Check for FileGraphs {
 }
 
 pub fn checks(tier: Tier) -> Vec<Box<dyn Check>> {
-    vec![Box::new(FileGraphs::with_signatures(tier)), Box::new(FileGraphs::four(tier))]
+    vec![Box::new(FileGraphs::with_signatures(tier)), Box::new(FileGraphs::four(tier)), Box::new(FileGraphs::families(tier))]
 }
